@@ -16,12 +16,35 @@
 (***************************************************************************)
 EXTENDS Naturals, FiniteSets, Sequences, TLC
 
-CONSTANTS Keys, MaxTime, Recheck, LazyAll
+CONSTANTS
+  \* @type: Set(Str);
+  Keys,
+  \* @type: Int;
+  MaxTime,
+  \* @type: Bool;
+  Recheck,
+  \* @type: Bool;
+  LazyAll
+(* (the type annotations are for Apalache, which discharges the inductive invariant of ImplSweeperInd.tla; TLC ignores them) *)
 NoKey == [v |-> 0, exp |-> 0, live |-> FALSE]
 NoIdx == 0          \* deadlines are >= 1
 NoExp == 0
 
-VARIABLES data, index, now, pc, collected, ref, lastObs
+VARIABLES
+  \* @type: Str -> { v: Int, exp: Int, live: Bool };
+  data,
+  \* @type: Str -> Int;
+  index,
+  \* @type: Int;
+  now,
+  \* @type: Str;
+  pc,
+  \* @type: Set(Str);
+  collected,
+  \* @type: Str -> { v: Int, exp: Int, live: Bool };
+  ref,
+  \* @type: { k: Str, seen: Bool, should: Bool };
+  lastObs
 vars == <<data, index, now, pc, collected, ref, lastObs>>
 
 Vals == {1, 2}
@@ -32,6 +55,7 @@ Init ==
   /\ now = 0 /\ pc = "idle" /\ collected = {}
   /\ lastObs = [k |-> "none", seen |-> FALSE, should |-> FALSE]
 
+\* @type: ({ v: Int, exp: Int, live: Bool }, Int) => Bool;
 Expired(e, t) == e.live /\ e.exp # NoExp /\ e.exp <= t
 RefLive(k) == ref[k].live /\ ~(ref[k].exp # NoExp /\ ref[k].exp <= now)
 
